@@ -321,6 +321,8 @@ class SourceModel:
                     self.modules[name] = Module(self, name, path, relpath, src, is_pkg)
                 except SyntaxError as e:
                     raise AnalysisError(f"cannot parse {relpath}: {e}")
+        from .inline import absorb_helpers
+        self.absorbed = absorb_helpers(self)
 
     # -- access helpers -------------------------------------------------------
     def module(self, name: str) -> Module:
